@@ -25,7 +25,7 @@ CHECKS = {
     "C14": dict(cat="model_checking", ref="§4 C14", tech="total TLA+ specification (every action defined for every argument, one expected panic) as oracle for recorded traces of an overflow-checked build over hostile corpora (timers incl. stalls of 13 500 readings) + native panic scan over 6000 (thorough 60 000) seeds per type, hits replayed and decided by Trace_Full; far positions (past 2^16 blocks, Hc128Rng past word 2^32 in an optimised overflow-checked build); a process abort is recorded as a panic of the running operation",
                 text="All operations run under catch_unwind in the dev (overflow-checked) profile over hostile inputs (timer deltas around +-2^31, 2^32, 2^63, wrap-around, decreasing; extreme seeds; fill lengths 0..17, block size +-1); a recorded panic other than set_rounds(0) is a step the total specification cannot take.",
                 note=TB + "; absence of panics is established on the explored corpora, not for all inputs"),
-    "C15": dict(cat="model_checking", ref="§4 C15", tech="GF(2) rank / kernel-vector certificate computed by TLC (Gf2.tla) on the pool maps extracted from the code through the cfg(rngs_verif) hook; collisions replayed on the code; six maps incl. the variable-round fold path and one whole collection (next_u64); a non-affine map is decided only by a concrete collision confirmed on the code",
+    "C15": dict(cat="model_checking", ref="§4 C15", tech="GF(2) rank / kernel-vector certificate computed by TLC (Gf2.tla) on the pool maps extracted from the code through the cfg(rngs_verif) hook; collisions replayed on the code; six maps incl. the variable-round fold path and one whole collection (next_u64); a non-affine map is decided only by a concrete collision confirmed on the code; special inputs / outputs and fixed points of the extracted maps are probed on the code",
                 text="The three pool maps (LFSR fold in the pool for fixed time, in the time for fixed pool, stir) are recorded from the real code on a complete basis plus random triples; TLC checks affinity on the triples and rank 64 of each linear part, which decides bijectivity for all 2^64 values; a rank deficiency is reported only together with a collision reproduced on the real code.",
                 note=TB + "; affinity of the code's maps is sampled; a non-affine map is reported as undecided (C12 rejects it)"),
     "C16": dict(cat="model_checking", ref="§4 C16", tech="TLC exhaustive model checking of the hand-out machine JitterApi (tokens, <=3 instances, clone of clone, clone_from) with invariants AtMostOnce / PendingIsHighHalfOfOwnValue / FreshOrPendingHalf and a negative control; (thorough) Apalache proves an inductive invariant implying AtMostOnce / PendingIsHighHalfOfOwnValue for an unbounded number of collections; transition cover replayed on real JitterRng instances; Trace_Jitter executes the same plans on concrete pools",
@@ -52,7 +52,7 @@ CHECKS = {
     "C17": dict(cat="model_checking", ref="§4 C17", tech="trace validation against a TLA+ non-interference specification (Trace_Debug): Debug text as an uninterpreted function of history / public read position (index, half_used from the API machine ApiImpl), learned and enforced by TLC; native scan of the text over millions of seeds whose minority texts are replayed as ordinary cases",
                 text="{:?} and {:#?} of the eight state-hiding types are recorded after every operation of walks from TLC's API state graph and random walks, each under several seeds (or timer scripts); TLC rejects two different texts for one (kind, format, history) or one (kind, format, public read position), so any seed- or state-dependent content in the text is detected without fixing the text itself.",
                 note=TB + "; leakage is detected as dependence on seed/state across the seeds of the corpus (>= 5 per history)"),
-    "C19": dict(cat="model_checking", ref="§4 C19", tech="TLC model checking of the instance machine (Instances.tla: frame property, solo-run results, process-wide JITTER_ROUNDS cache; negative controls with a global and a thread-local cache) + TLC-enumerated interleavings executed on persistent OS threads with background load; every instance validated by Trace_Stream against a solo twin run in a process of its own; pairs built by different constructors from coinciding arguments; Send/Sync static assertion compiled separately",
+    "C19": dict(cat="model_checking", ref="§4 C19", tech="TLC model checking of the instance machine (Instances.tla: frame property, solo-run results, process-wide JITTER_ROUNDS cache; negative controls with a global and a thread-local cache) + TLC-enumerated interleavings executed on persistent OS threads with background load; for arbitrary operations the events of an instance interleaved with others are compared with its events when run alone in its own process (Trace_Same, with and without background load); every instance validated by Trace_Stream against a solo twin run in a process of its own; pairs built by different constructors from coinciding arguments; Send/Sync static assertion compiled separately",
                 text="All interleavings of constructors and outputs of up to three instances over two threads are explored on the model; complete interleavings printed by TLC are executed on real threads (instances moved between persistent workers, unscripted background threads constructing generators of the same kinds from zero seeds) and every instance's stream must equal its solo twin's; a new_with_timer JitterRng must be unaffected by JitterRng::new(); the Send+Sync assertions must compile.",
                 note=TB + "; the sequencer enforces the interleaving (no real data race is attempted: all generator state is owned)"),
     "C18": dict(cat="model_checking", ref="§4 C18", tech="trace validation per build configuration: the reference configuration's trace is validated by the TLA+ trace specifications, every other configuration's trace must be the same behaviour (Trace_Same, checked by TLC)",
